@@ -224,7 +224,9 @@ impl Prop for C03 {
 #[derive(Serialize, Deserialize, Clone, Debug)]
 pub struct Req { pub entry: u8, pub text: String, pub valid_select: bool, pub update_shaped: bool, #[serde(default)] pub ext: bool }
 #[derive(Serialize, Deserialize, Clone, Debug)]
-pub struct HostileCase { pub hash_seed: u64, pub setup: Vec<UStep>, pub reqs: Vec<Req>, #[serde(default)] pub prefixes: Vec<(String, String, bool)> }
+pub struct HostileCase { pub hash_seed: u64, pub setup: Vec<UStep>, pub reqs: Vec<Req>, #[serde(default)] pub prefixes: Vec<(String, String, bool)>,
+    /// simulated rayon pool (size 0 = 1) and a bulk of extra default-graph triples so that joins see more rows than one chunk
+    #[serde(default)] pub pool: usize, #[serde(default)] pub rayon_seed: u64, #[serde(default)] pub bulk: u32 }
 pub struct C17;
 pub const ENTRIES: [&str; 10] = ["execute_sparql_query", "execute_query_rayon_parallel2_volcano(SELECT)", "execute_sparql_update", "SparqlDatabase::execute_update", "SparqlDatabase::handle_update", "handle_http_request(GET query=)", "handle_http_request(POST application/sparql-query)", "handle_http_request(POST form query=)", "handle_http_request(POST form update=)", "handle_http_request(POST application/sparql-update)"];
 
@@ -312,38 +314,12 @@ fn mutate(r: &mut Rng, base: &str) -> String {
     chars.into_iter().collect()
 }
 
-impl Prop for C17 {
-    type Case = HostileCase;
-    fn id(&self) -> &'static str { "C17" }
-    fn expected_counters(&self) -> Vec<&'static str> { vec!["fault.update_submitted_to_query_endpoint", "fault.update_behind_extension_clause_on_query_endpoint", "fault.malformed_or_refused_request", "fault.multibyte_request", "fault.hostile_namespace_in_database_prefix_table", "probe.prefix_registered_by_turtle_loader", "probe.extension_clause_then_select_accepted", "probe.ext_accepted.rule", "probe.ext_accepted.retrieve", "probe.ext_accepted.register", "probe.ext_accepted.ml_predict", "probe.ext_accepted.retrieve_and_rule", "probe.extension_clause_then_update_applied", "probe.min_max_over_stored_nan"] }
-    fn budget(&self, tier: Tier) -> Budget { match tier { Tier::Quick => Budget { runs: 20_000, wall_s: 60, recheck: 30 }, Tier::Thorough => Budget { runs: 1_500_000, wall_s: 1000, recheck: 100 } } }
-    fn hash_seed(&self, c: &HostileCase) -> u64 { c.hash_seed }
-    fn gen(&self, seed: u64, _i: u64, _t: Tier) -> HostileCase {
-        let mut r = Rng::sub(seed, "workload"); let mut cfg = Rng::sub(seed, "swarm");
-        let nsetup = r.usize(12);
-        let setup = gen_steps(&mut r, &mut cfg, nsetup).into_iter().filter(|s| !matches!(s, UStep::Rejected(_))).collect();
-        let w_mut = 1 + cfg.below(6) as u32;
-        let w_ext = cfg.below(4);
-        let w_pfx = cfg.below(3);
-        let mut prefixes = vec![];
-        if w_pfx > 0 { prefixes.push(("d".to_string(), "http://e/".to_string(), r.chance(1, 2))); prefixes.push(("h".to_string(), if w_pfx == 2 { r.pick(&PREFIX_IRIS).to_string() } else { "http://e/".to_string() }, r.chance(1, 2))); }
-        let mut reqs = vec![];
-        for _ in 0..(8 + r.usize(30)) {
-            let is_sel = r.chance(1, 2);
-            let base = if is_sel { r.pick(&SELECTS).to_string() } else if w_pfx > 0 && r.chance(1, 10) { "INSERT DATA { h:n9 d:p0 h:n8 }".to_string() } else { r.pick(&UPDATES).to_string() };
-            let mutated = r.weighted(&[3, w_mut]) == 1;
-            // an extension clause in front of the operation (the combined grammar allows no second prologue after it)
-            let ext = w_ext > 0 && !base.starts_with("PREFIX") && r.chance(w_ext, 12);
-            let base = if ext { format!("{}{}", r.pick(&EXTENSIONS), base) } else { base };
-            let text = if mutated { mutate(&mut r, &base) } else { base };
-            let entry = if !mutated && is_sel && !ext && r.chance(1, 4) { 1 } else { *r.pick(&[0u8, 0, 0, 2, 3, 4, 5, 6, 7, 8, 9]) };
-            reqs.push(Req { entry, text, valid_select: !mutated && is_sel, update_shaped: !mutated && !is_sel, ext });
-        }
-        HostileCase { hash_seed: Rng::sub(seed, "hash").next(), setup, reqs, prefixes }
-    }
-    fn exec(&self, c: &HostileCase, ctx: &mut Ctx) -> Option<Violation> {
+impl C17 {
+    fn exec_inner(&self, c: &HostileCase, ctx: &mut Ctx) -> Option<Violation> {
         let mut db = SparqlDatabase::new(); let mut other = SparqlDatabase::new(); let mut m = Store::default(); let mut bn = 0u64;
         for (i, st) in c.setup.iter().enumerate() { let mut scratch = Ctx::new(false); if step(&mut db, &mut other, &mut m, &mut bn, i, st, &mut scratch).is_err() { break; } }
+        for k in 0..c.bulk { db.add_triple_parts(&format!("http://e/n{}", k % 7), "http://e/p0", &format!("http://e/b{}", k)); if k % 3 == 0 { db.add_triple_parts(&format!("http://e/b{}", k), "http://e/p1", &format!("http://e/n{}", k % 5)); } }
+        if c.bulk > 0 { ctx.hit("probe.bulk_dataset_over_64_rows"); if c.pool > 64 { ctx.hit("fault.pool_wider_than_the_row_count"); } }
         for (k, iri, via_loader) in &c.prefixes {
             if *via_loader && !iri.contains(char::is_whitespace) && !iri.is_empty() { db.parse_turtle(&format!("@prefix {}: <{}> .\n", k, iri)); ctx.hit("probe.prefix_registered_by_turtle_loader"); } else { db.prefixes.insert(k.clone(), iri.clone()); }
             if iri.contains('\\') || !iri.is_ascii() { ctx.hit("fault.hostile_namespace_in_database_prefix_table"); }
@@ -387,6 +363,42 @@ impl Prop for C17 {
         ctx.nontrivial(kolibrie_verif_rt::log::fnv(&format!("{:?}", c.reqs)));
         ctx.state(db.dataset_index.all_quads().len() as u64);
         None
+    }
+}
+impl Prop for C17 {
+    type Case = HostileCase;
+    fn id(&self) -> &'static str { "C17" }
+    fn expected_counters(&self) -> Vec<&'static str> { vec!["fault.update_submitted_to_query_endpoint", "fault.update_behind_extension_clause_on_query_endpoint", "fault.malformed_or_refused_request", "fault.multibyte_request", "fault.hostile_namespace_in_database_prefix_table", "probe.prefix_registered_by_turtle_loader", "probe.extension_clause_then_select_accepted", "probe.ext_accepted.rule", "probe.ext_accepted.retrieve", "probe.ext_accepted.register", "probe.ext_accepted.ml_predict", "probe.ext_accepted.retrieve_and_rule", "probe.extension_clause_then_update_applied", "probe.min_max_over_stored_nan", "probe.bulk_dataset_over_64_rows", "fault.pool_wider_than_the_row_count"] }
+    fn budget(&self, tier: Tier) -> Budget { match tier { Tier::Quick => Budget { runs: 20_000, wall_s: 60, recheck: 30 }, Tier::Thorough => Budget { runs: 1_500_000, wall_s: 1000, recheck: 100 } } }
+    fn hash_seed(&self, c: &HostileCase) -> u64 { c.hash_seed }
+    fn gen(&self, seed: u64, _i: u64, _t: Tier) -> HostileCase {
+        let mut r = Rng::sub(seed, "workload"); let mut cfg = Rng::sub(seed, "swarm");
+        let nsetup = r.usize(12);
+        let setup = gen_steps(&mut r, &mut cfg, nsetup).into_iter().filter(|s| !matches!(s, UStep::Rejected(_))).collect();
+        let w_mut = 1 + cfg.below(6) as u32;
+        let w_ext = cfg.below(4);
+        let w_pfx = cfg.below(3);
+        let mut prefixes = vec![];
+        if w_pfx > 0 { prefixes.push(("d".to_string(), "http://e/".to_string(), r.chance(1, 2))); prefixes.push(("h".to_string(), if w_pfx == 2 { r.pick(&PREFIX_IRIS).to_string() } else { "http://e/".to_string() }, r.chance(1, 2))); }
+        let mut reqs = vec![];
+        for _ in 0..(8 + r.usize(30)) {
+            let is_sel = r.chance(1, 2);
+            let base = if is_sel { r.pick(&SELECTS).to_string() } else if w_pfx > 0 && r.chance(1, 10) { "INSERT DATA { h:n9 d:p0 h:n8 }".to_string() } else { r.pick(&UPDATES).to_string() };
+            let mutated = r.weighted(&[3, w_mut]) == 1;
+            // an extension clause in front of the operation (the combined grammar allows no second prologue after it)
+            let ext = w_ext > 0 && !base.starts_with("PREFIX") && r.chance(w_ext, 12);
+            let base = if ext { format!("{}{}", r.pick(&EXTENSIONS), base) } else { base };
+            let text = if mutated { mutate(&mut r, &base) } else { base };
+            let entry = if !mutated && is_sel && !ext && r.chance(1, 4) { 1 } else { *r.pick(&[0u8, 0, 0, 2, 3, 4, 5, 6, 7, 8, 9]) };
+            reqs.push(Req { entry, text, valid_select: !mutated && is_sel, update_shaped: !mutated && !is_sel, ext });
+        }
+        HostileCase { hash_seed: Rng::sub(seed, "hash").next(), setup, reqs, prefixes, pool: *cfg.pick(&[1usize, 1, 2, 4, 16, 65, 128, 300]), rayon_seed: Rng::sub(seed, "rayon").next(), bulk: if cfg.chance(1, 5) { 60 + cfg.below(90) as u32 } else { 0 } }
+    }
+    fn exec(&self, c: &HostileCase, ctx: &mut Ctx) -> Option<Violation> {
+        rayon::sim_configure(c.rayon_seed, c.pool.max(1));
+        let v = self.exec_inner(c, ctx);
+        rayon::sim_reset();
+        v
     }
     fn shrink(&self, c: &HostileCase) -> Vec<HostileCase> {
         let mut out: Vec<HostileCase> = shrink_vec(&c.reqs).into_iter().filter(|r| !r.is_empty()).map(|r| HostileCase { reqs: r, ..c.clone() }).collect();
